@@ -51,6 +51,10 @@ def paletteWire : List (String × String) := [
   ("rat31", "rat:2147483647/2147483646"),
   ("ratmin", "rat:-2147483648/3"),
   ("ratbig", "flo:43fce97ca0f21055"),
+  ("rat0", "rat:0/1"),
+  ("rat2", "rat:2/1"),
+  ("big0", "big:0"),
+  ("big1", "big:1"),
   ("0.0", "flo:0000000000000000"),
   ("-0.0", "flo:8000000000000000"),
   ("1.5", "flo:3ff8000000000000"),
